@@ -2,6 +2,7 @@
  *   o:N  write N bytes to stdout (lower-case stream), e:N to stderr (upper-case stream)
  *   s:MS sleep, x:N exit with N, k:SIG kill ourselves, i copy stdin to stdout verbatim,
  *   w:F  report cwd, umask and uid into file F as "<cwd> <umask> <uid>\n"
+ *   z:MS stop ourselves (SIGSTOP); a helper that shares none of our descriptors continues us after MS milliseconds
  * the two streams are deterministic, so a reader can tell loss, duplication and reordering */
 #include <signal.h>
 #include <stdio.h>
@@ -53,6 +54,20 @@ main(int argc, char *argv[])
 			signal((int)v, SIG_DFL);
 			kill(getpid(), (int)v);
 			pause();
+			break;
+		}
+		case 'z': {
+			pid_t me = getpid();
+			pid_t h = fork();
+			if (h == 0) {
+				struct timespec ts = {v / 1000, (v % 1000) * 1000000L};
+				for (int fd = 0; fd < 64; fd++) close(fd);
+				while (nanosleep(&ts, &ts) < 0);
+				kill(me, SIGCONT);
+				_exit(0);
+			} else if (h > 0) {
+				raise(SIGSTOP);
+			}
 			break;
 		}
 		case 'i': {
